@@ -729,6 +729,66 @@ pub fn c10_linear(x: &str, cis: &[u8], base: &Cfg, ctx: &mut Ctx) {
     }
 }
 
+/// indentation = levels x unit + continuations x min(255, ci x tw) in space mode, for every (tw, ci)
+/// including the saturating ones; levels and continuations per line are read from the tab runs at
+/// ci = 0 and ci = 1 (with the width unconstrained the line structure does not depend on them)
+pub fn c10_units(x: &str, tws: &[u8], cis: &[u8], base: &Cfg, ctx: &mut Ctx) {
+    let mk = |tabs: bool, tw: u8, ci: u8| {
+        base.with(|c| {
+            c.tabs = tabs;
+            c.tw = tw;
+            c.ci = ci;
+            c.wrap = u32::MAX;
+        })
+    };
+    let lead = |o: &str, ch: u8| -> Vec<Option<usize>> {
+        line_starts(o, base.fms)
+            .iter()
+            .map(|(pos, kind)| {
+                if *kind == LineStart::Outside {
+                    Some(o[*pos..].bytes().take_while(|c| *c == ch).count())
+                } else {
+                    None
+                }
+            })
+            .collect()
+    };
+    let t0 = lead(&ctx.fmt(&mk(true, 2, 0), x), b'\t');
+    let t1 = lead(&ctx.fmt(&mk(true, 2, 1), x), b'\t');
+    if t0.len() != t1.len() {
+        return; // reported by c10_linear
+    }
+    for &tw in tws {
+        for &ci in cis {
+            let o = ctx.fmt(&mk(false, tw, ci), x);
+            let sp = lead(&o, b' ');
+            if sp.len() != t0.len() {
+                ctx.fail("C10", "line-structure-depends-on-indentation-settings", format!("tab_width={tw} continuation_indents={ci}: {} lines vs {}", sp.len(), t0.len()), json!({"oracle": "c10_units", "input": x, "cfg": base, "tw": tw, "ci": ci}));
+                return;
+            }
+            let cont = (tw as usize * ci as usize).min(255);
+            for k in 0..sp.len() {
+                if let (Some(l), Some(lc), Some(s)) = (t0[k], t1[k], sp[k]) {
+                    if lc < l {
+                        return;
+                    }
+                    let want = l * tw as usize + (lc - l) * cont;
+                    if s != want {
+                        ctx.fail(
+                            "C10",
+                            "indentation-not-levels-plus-continuations",
+                            format!("tab_width={tw} continuation_indents={ci}: line {} has {s} spaces, expected {l} x {tw} + {} x min(255, {ci} x {tw}) = {want}", k + 1, lc - l),
+                            json!({"oracle": "c10_units", "input": x, "cfg": base, "tw": tw, "ci": ci}),
+                        );
+                        return;
+                    }
+                }
+            }
+        }
+    }
+    ctx.nontrivial();
+}
+
 // ---------------------------------------------------------------------------------------------
 // C11
 
